@@ -19,9 +19,15 @@
 package jwx
 
 import (
+	"crypto"
+	"crypto/ecdsa"
+	"crypto/ed25519"
+	"crypto/rsa"
 	"errors"
+	"fmt"
 
 	"github.com/lestrrat-go/jwx/v2/jwa"
+	"github.com/lestrrat-go/jwx/v2/jwk"
 )
 
 // ErrUnsupportedSigningKey is returned when an unsupported private key is used to sign. Currently only ecdsa and rsa keys are supported
@@ -40,6 +46,54 @@ func IsAlgorithmSupported(alg jwa.SignatureAlgorithm) bool {
 		}
 	}
 	return false
+}
+
+// CheckAlgorithmFitsKey returns an error if the given signature algorithm can't be used with the given verification key,
+// as specified by RFC 7518 section 3: ES256, ES384 and ES512 require an ECDSA key on curve P-256, P-384 and P-521 respectively
+// (ES256K requires secp256k1), the RSA algorithms require an RSA key and EdDSA requires an Ed25519 key.
+// The JWX library only checks the key type, so without this check a signature made with e.g. SHA-384 (alg ES384) and a P-256 key is accepted.
+// The key can be a public or private key from the standard library (pointer or value), or a jwk.Key. Other key types are not checked.
+func CheckAlgorithmFitsKey(alg jwa.SignatureAlgorithm, key interface{}) error {
+	if asJWK, ok := key.(jwk.Key); ok {
+		var raw interface{}
+		if err := asJWK.Raw(&raw); err != nil {
+			return err
+		}
+		key = raw
+	}
+	if signer, ok := key.(crypto.Signer); ok {
+		key = signer.Public()
+	}
+	var expected []jwa.SignatureAlgorithm
+	switch k := key.(type) {
+	case ecdsa.PublicKey:
+		return CheckAlgorithmFitsKey(alg, &k)
+	case *ecdsa.PublicKey:
+		switch k.Curve.Params().Name {
+		case "P-256":
+			expected = []jwa.SignatureAlgorithm{jwa.ES256}
+		case "P-384":
+			expected = []jwa.SignatureAlgorithm{jwa.ES384}
+		case "P-521":
+			expected = []jwa.SignatureAlgorithm{jwa.ES512}
+		case "secp256k1":
+			expected = []jwa.SignatureAlgorithm{jwa.ES256K}
+		default:
+			return ErrUnsupportedSigningKey
+		}
+	case rsa.PublicKey, *rsa.PublicKey:
+		expected = []jwa.SignatureAlgorithm{jwa.PS256, jwa.PS384, jwa.PS512, jwa.RS256, jwa.RS384, jwa.RS512}
+	case ed25519.PublicKey:
+		expected = []jwa.SignatureAlgorithm{jwa.EdDSA}
+	default:
+		return nil
+	}
+	for _, curr := range expected {
+		if curr == alg {
+			return nil
+		}
+	}
+	return fmt.Errorf("signing algorithm %s does not fit key of type %T", alg, key)
 }
 
 func AddSupportedAlgorithm(alg jwa.SignatureAlgorithm) bool {
